@@ -202,6 +202,49 @@ fn check_soes_consts(n: usize) -> Verdict {
     }
 }
 
+/// A long accumulation `acc = acc | term_k` (terms repeat non-adjacently), checked after every
+/// step: forms whose behaviour changes with their length must still denote the OR.
+fn check_soes_chain(n: usize, seq: &[u32]) -> Verdict {
+    let r = guarded(|| {
+        let mut acc = Soes::zero(n);
+        let mut model = TT::zero(n);
+        for (k, code) in seq.iter().enumerate() {
+            let (v, x) = (code >> 1, code & 1 != 0);
+            let term = Soes::from_cubes(n, vec![mk_ecube(v, x)]);
+            acc = if k % 2 == 0 { &acc | &term } else { acc | term };
+            let tm = EcubeM::from_mask(v, x);
+            model = TT::from_fn(n, |m| model.get(m) || tm.value(m as u64));
+            for m in 0..nbits(n) {
+                if acc.value(m) != model.get(m) {
+                    return fail(format!("after {} accumulated terms value({}) = {}", k + 1, m, model.get(m)), format!("{} ({} terms)", acc.value(m), acc.num_cubes()));
+                }
+            }
+            let l = Lut::from(&acc);
+            if l.blocks() != &model.w[..] {
+                return fail(format!("after {} accumulated terms Lut::from = [{}]", k + 1, fmt_words(&model.w)), format!("{}", l));
+            }
+            if (acc.is_zero() && !model.is_const(false)) || (acc.is_one() && !model.is_const(true)) {
+                return fail("is_zero/is_one only for the respective constants", format!("is_zero={} is_one={} after {} terms", acc.is_zero(), acc.is_one(), k + 1));
+            }
+        }
+        // two long operands sharing a term
+        let half = seq.len() / 2;
+        let a = Soes::from_cubes(n, seq[..half].iter().map(|c| mk_ecube(c >> 1, c & 1 != 0)).collect());
+        let b = Soes::from_cubes(n, seq[half - 1..].iter().map(|c| mk_ecube(c >> 1, c & 1 != 0)).collect());
+        let u = &a | &b;
+        for m in 0..nbits(n) {
+            if u.value(m) != (a.value(m) || b.value(m)) {
+                return fail(format!("(a | b).value({}) = a.value | b.value for two long operands sharing a term", m), format!("{} terms | {} terms -> {}", a.num_cubes(), b.num_cubes(), u.value(m)));
+            }
+        }
+        Ok(())
+    });
+    match r {
+        Ok(v) => v,
+        Err(p) => fail("long Soes accumulation returns", p),
+    }
+}
+
 pub fn replay(case: &Case) -> Result<Verdict, String> {
     let h = |k: &str| -> Result<u32, String> { u32::from_str_radix(case.get(k)?, 16).map_err(|e| e.to_string()) };
     let list = |k: &str| -> Result<Vec<u32>, String> { case.get(k)?.split('.').filter(|s| !s.is_empty()).map(|s| u32::from_str_radix(s, 16).map_err(|e| e.to_string())).collect() };
@@ -215,6 +258,7 @@ pub fn replay(case: &Case) -> Result<Verdict, String> {
         }
         "soes" => check_soes(case.usize("n")?, &list("a")?, &list("b")?),
         "soesconst" => check_soes_consts(case.usize("n")?),
+        "soeschain" => check_soes_chain(case.usize("n")?, &list("a")?),
         k => return Err(format!("unknown kind {}", k)),
     })
 }
@@ -362,6 +406,23 @@ pub fn run(run: &Run) {
             }
         });
     }
+    run.section_seq("SOES long accumulations: acc = acc | term over 48..96 steps with non-adjacent repeats, n = 3, 5, 8; two long operands sharing a term", false, "sequences cycling through every term (n=3), through sparse terms (n=5, 8); checked after every step", |l| {
+        for k in [3usize, 5, 8] {
+            let nterm = 1u32 << (k + 1);
+            let seqs: Vec<Vec<u32>> = (0..6u32)
+                .map(|s| (0..(if k == 3 { 48 } else { 96 })).map(|i: u32| {
+                    // non-constant terms, cycling with period 7 + s (repeats are never adjacent)
+                    let j = i % (7 + s);
+                    let code = (j * 37 + s * 11 + 2) % nterm;
+                    if code < 2 { code + 2 } else { code }
+                }).collect())
+                .collect();
+            for (i, seq) in seqs.iter().enumerate() {
+                l.states += seq.len() as u64;
+                rec(l, check_soes_chain(k, seq), format!("soeschain|{}|{}", k, i), "soes/long-accumulation", format!("kind=soeschain;n={};a={}", k, join(seq)), true, i as u64);
+            }
+        }
+    });
     run.section_seq("SOES n=5..8: lists of alphabet terms (single variables, full parity, boundary sets) up to 4 terms; constants n=0..8", false, "enumerated alphabet of terms; all ordered lists up to 3 (4 thorough) terms of it", |l| {
         for k in 0..=8usize {
             l.states += 1;
